@@ -20,6 +20,9 @@ FMT_MAX = {"moto": 0xffffffff, "intel": 0xffff, "intel16": 0xffff0 + 0xffff, "in
 # (family id, granularity in CODE) - documented ids; long records carry the granularity explicitly
 FAMS = [(0x51, 1), (0x11, 1), (0x01, 1), (0x42, 1), (0x13, 1), (0x31, 1), (0x70, 2), (0x3b, 2), (0x76, 4), (0x61, 1)]
 SEGNAME = {1: "CODE", 2: "DATA", 4: "XDATA"}
+# input class of the finding default-format-differs-from-manual (XCore, MELPS-4500, 2650, TLCS-9000); the theorem
+# C06_default_format excludes exactly these ids (Lemmas/Hex2.lean defaultFormatDeviations)
+DEFAULT_FORMAT_DEVIATIONS = (0x06, 0x12, 0x37, 0x56)
 
 LEN_POOL = [1, 2, 3, 4, 15, 16, 17, 31, 32, 33, 48, 100, 250, 251, 252, 253, 254, 255, 256, 257, 508, 1000, 4096]
 LL_POOL = [1, 2, 3, 4, 8, 15, 31, 32, 64, 100, 249, 250, 251, 252, 253, 254]
@@ -413,6 +416,7 @@ def run(args):
             cases.append(gen_case(rng, i))
         # default format over the whole family table (documented: chosen by processor type)
         fam_ok = 0
+        fam_reqs = []       # (family id, items, first line of the real output without -F) -> driver mode c06fam
         family_default(0)
         for cpu, name in sorted(_FAMTAB.items()):
             its = [("d", cpu, 1, 1, 0x20, bytes(range(cpu, cpu + 6)))]
@@ -421,6 +425,8 @@ def run(args):
             else:
                 fb, a, rc, so, se, out = run_case(bdir, wd, 0, its, default_opts())
                 first = (out or b"").split(b"\n")[0]
+                if rc == 0 and first:
+                    fam_reqs.append((cpu, its, first))
                 good = rc == 0 and ((name == "dsk" and first.startswith(b"K_DSKA")) or name == "mico8")
                 fam_ok += 1 if good else 0
                 if not good:
@@ -432,6 +438,8 @@ def run(args):
                                       items=[list(it[:5]) + [it[5].hex()] if it[0] == "d" else list(it) for it in items], opts=o, cmd=a[2:]))
                 continue
             reqs.append("%s %s %s" % (fb.hex(), out.hex() if out else "-", req_opts(o, quirks)))
+            if "family-table" in tags and out:
+                fam_reqs.append((items[0][1], items, out.split(b"\n")[0]))
             metas.append((items, o, tags, a, out, se))
             for t in tags:
                 if not t.startswith("corpus:"):
@@ -477,6 +485,21 @@ def run(args):
                 corr_fail.append(dict(why="real p2hex text differs from the model's text", verdict=ans[:600], **case))
             if kv.get("model") == "eq" and (kv.get("mdecode"), kv.get("mcells")) != (kv.get("decode"), kv.get("cells")):
                 proof_problems.append("driver-internal: verdict on identical texts differs")
+        # default format per family: SPEC (manual's sentence + documented family ids, Spec/HexFamilies.lean) on the real output
+        fam_answers = common.driver("c06fam", ["%d %s" % (cpu, first.hex()) for cpu, its, first in fam_reqs]) if ok and fam_reqs else []
+        fam_checked = 0
+        for (cpu, its, first), ans in zip(fam_reqs, fam_answers):
+            kv = dict(x.split("=", 1) for x in ans.split() if "=" in x)
+            if "spec" not in kv:
+                corr_fail.append(dict(tag="family-table", why="c06fam: " + ans[:100]))
+                continue
+            fam_checked += 1
+            if kv["spec"] != kv["seen"]:
+                spec_fail.append(dict(sig="default-format-differs-from-manual" if cpu in DEFAULT_FORMAT_DEVIATIONS else None,
+                                      why="family $%02x without -F: output is %s, the manual documents %s" % (cpu, kv["seen"], kv["spec"]),
+                                      tag=["family-table"], items=[list(it[:5]) + [it[5].hex()] for it in its], opts=default_opts(),
+                                      first_line=first.decode("latin1")[:60]))
+        dist["family-default-vs-manual"] = fam_checked
         # cosmetic defect outside C06 (summary line): observed, never a failure
         pf = os.path.join(wd, "cos.p")
         open(pf, "wb").write(pfile([("d", 0x51, 1, 1, 0, b"abc")]))
